@@ -283,6 +283,10 @@ def key_of(t, rw, symptom):
 def run(ctx):
     cov = {"samples": []}
     cases = run_spec(ctx, cov)
+    if os.environ.get("VERIF_C14_CORRUPT"):
+        # self-test of the detection path (by hand): falsify the specified effect of one case
+        k = [c for c in cases if c["kind"] == "abs" and c["op"] == "add" and c["value"] == "0x1000"][int(os.environ["VERIF_C14_CORRUPT"])]
+        k["effect"] ^= 1
     wild_bin()
     # group: one program per (out, style, instance); branch tests against absolute symbols one per program
     groups = {}
@@ -298,6 +302,7 @@ def run(ctx):
     findings = {}
     samples = []
     max_depth = 2 if ctx.quick else 5
+    spec_errors = []
     box = {}
 
     def handle(args):
@@ -332,6 +337,8 @@ def run(ctx):
             bump(stats, "wild_link_refused", n)
             return
         st, obs = run_binary(sub, "p.wild", n)
+        if st == "ok" and os.environ.get("VERIF_C14_CORRUPT_OBS") and name == "g3":
+            obs[1]["res"] ^= 0x10       # self-test of the detection path (by hand): falsify one observation
         rws = disasm_rewrites(sub, "p.wild", n)
         if st != "ok":
             if n > 1:
@@ -360,6 +367,11 @@ def run(ctx):
                                     "reference": hex(o["rres"])})
                 continue
             if ld_obs is not None and judge(t, ld_obs[i]) is not None:
+                lo = ld_obs[i]
+                if lo["res"] == lo["rres"] and lo["flg"] == lo["rflg"]:
+                    # under GNU ld the GOT form and the register form agree with each other but not with
+                    # the specified Effect: the specification is wrong, not wild
+                    spec_errors.append(f"{describe(t)}: Effect says 0x{t['case']['effect']:x}, the CPU (GNU ld link) 0x{lo['res']:x}")
                 bump(stats, "excluded_ld_deviates_too", 1)
                 continue
             findings.setdefault(key_of(t, rw, sym), []).append(
@@ -381,6 +393,8 @@ def run(ctx):
         stats["tests"] = sum(len(v) for v in groups.values())
         with ThreadPoolExecutor(max_workers=8) as ex:
             list(ex.map(handle, items))
+        if spec_errors:
+            raise ToolError(f"specification disagrees with the hardware on {len(spec_errors)} cases, e.g. {spec_errors[0]}")
         for key, obs in sorted(findings.items()):
             text, sub, tests, idx = obs[0]
 
@@ -448,9 +462,6 @@ def run(ctx):
         if judge(t0, good) is not None or judge(t0, bad) is None:
             raise ToolError("binding demonstration failed")
         cov["binding_demo"] = {"clean": "accepted", "register_corrupted_by_one": judge(t0, bad)}
-        if os.environ.get("VERIF_C14_CORRUPT"):
-            ctx.verdict.report("value:mov64:x:abs:exe:0x1000:rw=imm", "(injected) corrupted observation",
-                               lambda: save_replay(PROP, "injected", files={}, meta={}))
     cov["replay"] = stats
     cov["deviation_classes"] = {k: len(v) for k, v in findings.items()}
     cov["traces_validated_against_impl"] = stats["executed_wild"] + cov["tls_replay"]["executed_wild"]
